@@ -2,6 +2,7 @@ import WfModel.GenResource
 import WfProofs.ResourceProps
 import WfProofs.ResourceProgress
 import WfProofs.ResourceVal
+import WfProofs.ResourceLock
 /-!
 # C22 — resource injection honors caching and cycle detection under concurrency
 
@@ -248,6 +249,26 @@ example :
     s3.tasks.map (·.phase) = [.done .cancelled, .active, .done .cancelled] ∧ s3.resolving = [0] ∧
     s4.tasks.map (·.phase) = [.done .cancelled, .done (.ok [1]), .done .cancelled, .done (.ok [2])] ∧
     s4.resolving = [] ∧ s4.depth = 0 ∧ s4.scache = [] ∧ s4.lock = none := by
+  decide
+
+/-- ... and the scope lock is free: once every invocation has ended -- it returned, raised,
+or was cancelled, inside a factory or in the queue of the lock, also after it had been
+handed the lock but before it ran -- nobody holds the lock and nobody waits for it
+(invariant: the lock is held by, or has been handed to, a live invocation; the queue holds
+distinct waiting invocations, none of them the holder). -/
+theorem C22_lock_free_after_all_ended (b : Bool) (g : Graph) (acts : List Act)
+    (h : ∀ (t : Nat) (k : Task), (run ⟨true, b⟩ g acts).tasks[t]? = some k → ∃ o, k.phase = .done o) :
+    (run ⟨true, b⟩ g acts).lock = none ∧ (run ⟨true, b⟩ g acts).waiters = [] :=
+  lock_free_of_all_done (lock_run ⟨true, b⟩ rfl g acts) h
+
+/-- invocation 0 is cancelled inside the async factory with invocation 1 queued: the lock is
+handed to 1, which is cancelled before it runs -/
+example :
+    let s := run ⟨true, true⟩ [⟨true, true, false, [], .obj⟩]
+      [.spawn [0] false, .tick, .tick, .tick, .spawn [0] false, .tick, .cancel 0, .cancel 1]
+    s.tasks.map (·.phase) = [.done .cancelled, .done .cancelled] ∧ s.lock = none ∧ s.waiters = [] ∧
+    (run ⟨true, true⟩ [⟨true, true, false, [], .obj⟩]
+      [.spawn [0] false, .tick, .tick, .tick, .spawn [0] false, .tick, .cancel 0]).lock = some 1 := by
   decide
 
 /-- **The property, concurrent, for the tree as it is**: all clauses, for every graph
